@@ -290,7 +290,7 @@ func VerifC04_QueueScanReachesEveryChannel() {
 	o.QueueScanWorkerPoolMax = 2
 	o.QueueScanDirtyPercent = 0.25
 	n := verifShellNSQD(o)
-	verifrt.Stub("(*github.com/nsqio/nsq/nsqd.NSQD).Notify", verifNotifyNop)
+	verifrt.StubNative("(*github.com/nsqio/nsq/nsqd.NSQD).Notify", verifNotifyNop)
 	verifrt.Preemptions(0)
 	if verifrt.Symbolic() {
 		verifScanInterval = o.QueueScanInterval
@@ -352,3 +352,6 @@ func VerifC04_QueueScanReachesEveryChannel() {
 	}
 	verifrt.Assert(exited, "scan-loop-still-answers-the-exit-signal")
 }
+
+// A deferred publish keeps its delay on EVERY channel of the topic (real topic pump, 1-3 channels).
+func VerifC04_DeferredFanOut() { verifTopicPumpFanOut() }
